@@ -434,8 +434,17 @@ func (u *Unit) specIndex(x, i Val, env *Env) Val {
 		return Val{T: sel(x.T, u.termOf(i)), Typ: et}
 	case x.T.Sort == "Int" && x.Typ != nil:
 		if mt, ok := x.Typ.Underlying().(*types.Map); ok {
-			_, _, _, vh := u.mapHeaps(env.st, mt)
-			return Val{T: sel(sel(vh, x.T), u.termOf(i)), Typ: mt.Elem()}
+			_, dh, _, vh := u.mapHeaps(env.st, mt)
+			mv := sel(sel(vh, x.T), u.termOf(i))
+			if len(env.bound) == 0 {
+				// heap typing invariant for a stored map value (as the executor assumes at every lookup):
+				// a reference held by the map in this state points to an object allocated in this state
+				switch mt.Elem().Underlying().(type) {
+				case *types.Slice, *types.Pointer, *types.Map, *types.Interface:
+					u.assume(tTrue, implies(sel(sel(dh, x.T), u.termOf(i)), u.typeInv(env.st, mv, mt.Elem())))
+				}
+			}
+			return Val{T: mv, Typ: mt.Elem()}
 		}
 	}
 	u.specFail("cannot index %s", x.T.Sort)
